@@ -89,7 +89,7 @@ pub fn short_hex(b: &[u8]) -> String {
     }
 }
 
-/// Known finding "return-data-truncated-push": after an OP_RETURN opcode the library keeps the lenient
+/// Known finding "return-data-truncated-push": after an OP_RETURN opcode at the top level the library keeps the lenient
 /// reading of a final *direct* push that declares more bytes than remain (pinned by the repository's
 /// test `scrypt_stateful_contract`). Returns the neutralised bytes (the push opcode replaced by the
 /// number of bytes that are actually there) when `bytes` is exactly such a script.
@@ -97,7 +97,19 @@ pub fn known_lenient_tail(bytes: &[u8]) -> Option<Vec<u8>> {
     match tok::tokenize(bytes) {
         Err(tok::TokErr::TruncatedPayload { at, declared, available }) if (1..=75).contains(&bytes[at]) && declared == bytes[at] as u64 => {
             let prefix = tok::tokenize(&bytes[..at]).ok()?;
-            if !prefix.iter().any(|t| *t == Tok::Op(0x6a)) {
+            // only an OP_RETURN outside every conditional makes what follows data (inside a branch it ends nothing of the
+            // script's grammar, and the library no longer reads leniently behind one: `fixed` entry in known_findings.json)
+            let mut depth = 0usize;
+            let mut top_level_return = false;
+            for t in &prefix {
+                match t {
+                    Tok::Op(99..=102) => depth += 1,
+                    Tok::Op(104) => depth = depth.saturating_sub(1),
+                    Tok::Op(0x6a) if depth == 0 => top_level_return = true,
+                    _ => {}
+                }
+            }
+            if !top_level_return {
                 return None;
             }
             let mut n = bytes.to_vec();
